@@ -180,6 +180,34 @@ func oracleC01asaVPN(c *Case) Verdict {
 	return withVPNClasses(c, vpnSign(c, oracleC01asa(c)))
 }
 
+func oracleC07asaVPN(c *Case) Verdict {
+	if v := outsideQuantifier(c); v != nil {
+		return *v
+	}
+	// Objects with a fixed name (crypto map, dynamic map, ...) are identified
+	// by that name: a device object that no managed anchor uses, but whose
+	// name the target defines, is not outside Netspoc's scope in any useful
+	// sense; such pairs are set aside.
+	if a, err := asam.Parse(c.Files["device"]); err == nil {
+		if b, err := asam.Parse(c.Files["code/router"]); err == nil {
+			for _, key := range a.VPNFrameOf(asam.ScopeOf(b)).Keys() {
+				if !strings.HasPrefix(key, "acl:") && asam.HasObj(b, key) && !strings.HasPrefix(key, "aaa:") && !strings.HasPrefix(key, "ldap:") {
+					return discard("scope-conflict")
+				}
+			}
+		}
+	}
+	v := withVPNClasses(c, vpnSign(c, oracleC07asa(c)))
+	if v.Status == Pass {
+		if a, err := asam.Parse(c.Files["device"]); err == nil {
+			if b, err := asam.Parse(c.Files["code/router"]); err == nil && !a.VPNFrameOf(asam.ScopeOf(b)).Empty() {
+				v.Classes = append(v.Classes, "c07:vpn-frame-nonempty")
+			}
+		}
+	}
+	return v
+}
+
 func oracleC08asaVPN(c *Case) Verdict {
 	if v := outsideQuantifier(c); v != nil {
 		return *v
@@ -385,9 +413,12 @@ func isFV1(c *Case, v Verdict) bool {
 			if script["no "+word+" "+have] {
 				continue
 			}
+			// The entry re-issued for the SAME subject names another map.
 			oldMap := strings.Fields(have)[0]
+			wantMap := strings.Fields(eb[list][key])[0]
 			for _, f := range adds {
-				if f[0] == word && f[1] != oldMap {
+				base, _, _ := strings.Cut(f[1], "-DRC-")
+				if f[0] == word && base == wantMap && f[1] != oldMap {
 					return true
 				}
 			}
@@ -397,6 +428,7 @@ func isFV1(c *Case, v Verdict) bool {
 }
 
 func init() {
+	register("C07", familyASAVPN, oracleC07asaVPN)
 	register("C01", familyASAVPN, oracleC01asaVPN)
 	register("C08", familyASAVPN, oracleC08asaVPN)
 	register("C10", familyASAVPN, oracleC10asaVPN)
